@@ -2,7 +2,7 @@
 
 import math
 
-from ._base import BuilderSystem, run_configs, replay_history
+from ._base import BuilderSystem, run_configs, replay_history, replayed
 from ..harness import pt
 from ..common import rf, import_gscrib
 
@@ -330,7 +330,7 @@ def systems(tier):
         ("axes-relative-from-known-start", C03System("axes-relative-from-known-start", {"axes": BOX}, ["axes"], start=(2, 2, 0)), 2),
         ("feed", C03System("feed", {"feed-rate": R}, ["feed-rate"], rebound=("feed-rate", 20, 50)), 3),
         ("power", C03System("power", {"tool-power": R}, ["tool-power"], rebound=("tool-power", 0, 50)), 3),
-        ("feed+power", C03System("feed+power", {"feed-rate": (10, 100), "tool-power": (200, 300)}, ["feed-rate", "tool-power"]), 2),
+        ("feed+power", replayed(C03System("feed+power", {"feed-rate": (10, 100), "tool-power": (200, 300)}, ["feed-rate", "tool-power"])), 2),
         ("feed+power-hooks", C03System("feed+power-hooks", {"feed-rate": (10, 100), "tool-power": (200, 300)}, ["feed-rate", "tool-power"], hooks=True), 2),
         ("temps+tool", C03System("temps+tool", {k: ALL[k] for k in ("tool-number", "bed-temperature", "hotend-temperature", "chamber-temperature")},
                                  ["tool-number", "bed", "bed-temperature", "hotend-temperature", "chamber-temperature"]), 2),
